@@ -3,7 +3,8 @@
   Property theorems only; model: Model/ServerReply.lean (decision sequence of runIPServer /
   runSCIONServer, reply header of handleRequest) over Model/NtpPacket.lean.
   Addressing of the reply over SCION (reversed path) is C13's; the reply's timestamps are
-  C06's; the NTS branch is abstracted as `ntsOk` (C10/C11).
+  C06's; the NTS branch is abstracted per datagram (`ntsOk` / `NtsView`; its content is C10/C11),
+  what it could carry from one datagram to the next is modelled (`runLoopN`).
 -/
 import ScionTime.Proofs.C14Codec
 import ScionTime.Model.ServerReply
@@ -120,6 +121,67 @@ example : runLoop true 2048 [([0], false), (0x23 :: List.replicate 47 0, false)]
 /-- The structural fact the model relies on, re-read from /repo on every run: the first
     statements of `runIPServer`'s loop body restore `buf` and `oob` to full capacity. -/
 theorem C09_pin_restoreAtLoopTop : Gen.Server.ipServerRestoresBufAtLoopTop = true := by decide
+
+/-! ### history independence of the NTS branch -/
+
+/-- `loopIterN` with a fresh request struct per datagram is `loopIter` fed with the branch's
+    outcome on the datagram alone. -/
+theorem C09_loopIterN_fresh (restoreAtTop : Bool) (st : Nat × List Nat) (d : List Nat × NtsView) :
+    (loopIterN restoreAtTop true st d).2 = (loopIter restoreAtTop st.1 (d.1, ntsAlone d.2)).2 ∧
+    (loopIterN restoreAtTop true st d).1.1 = (loopIter restoreAtTop st.1 (d.1, ntsAlone d.2)).1 := by
+  simp [loopIterN, ntsAlone]
+
+/-- **History independence including the NTS branch.** The receive loop with *all* the state
+    an iteration could leave behind — the length of `buf` and the cookie list of the NTS request
+    struct — decides every datagram of any sequence on one listener socket exactly like `serve`
+    decides it alone with the NTS branch run on a zero-valued request struct: a valid NTS request
+    of one association is answered whatever associations, junk cookies or malformed datagrams the
+    socket saw before. It rests on two structural facts of the loop body, both re-read from /repo
+    on every run: the buffer restore at the top (`C09_pin_restoreAtLoopTop`) and the request
+    structs being declared inside the body (`C09_pin_requestStateInLoop`). -/
+theorem C09_nts_history_independent (st : Nat × List Nat) (ds : List (List Nat × NtsView)) :
+    runLoopN true true st ds = ds.map (fun d => serve d.1 (ntsAlone d.2)) := by
+  induction ds generalizing st with
+  | nil => rfl
+  | cons d ds ih =>
+    simp only [runLoopN, List.map_cons, ih]
+    congr 1
+
+/-- …and it is the loop of `C09_history_independent` run on the per-datagram outcomes. -/
+theorem C09_nts_loop_eq (st : Nat × List Nat) (ds : List (List Nat × NtsView)) :
+    runLoopN true true st ds = runLoop true st.1 (ds.map fun d => (d.1, ntsAlone d.2)) := by
+  rw [C09_nts_history_independent, C09_history_independent]
+  simp [List.map_map, Function.comp_def]
+
+/-- a 49-byte-or-longer datagram with a well-formed first byte, standing for an NTS request -/
+def ntsDatagram : List Nat := 0x23 :: List.replicate 99 0
+/-- a valid request of association `a` (its cookie is the id `a`): authenticates exactly under its own cookie -/
+def assocReq (a : Nat) : List Nat × NtsView := (ntsDatagram, ⟨[a], true, fun c => c == a⟩)
+/-- a datagram holding a cookie field `j` that no key opens and nothing else (`nts.DecodePacket` fails after appending it) -/
+def junkCookie (j : Nat) : List Nat × NtsView := (ntsDatagram, ⟨[j], false, fun _ => false⟩)
+/-- a plain 48-byte request -/
+def plainReq : List Nat × NtsView := (0x23 :: List.replicate 47 0, ⟨[], false, fun _ => false⟩)
+
+/-- The declaration inside the loop body is what this rests on. A loop whose request struct is
+    declared once outside (`freshNts = false`) answers association 1, then drops every valid request
+    of association 2 (it authenticates them under association 1's cookie) while still serving plain
+    requests and association 1; and after one junk-cookie datagram it drops *every* later NTS
+    request. The loop as it is answers them all. -/
+example : runLoopN true false (2048, []) [assocReq 1, assocReq 1, plainReq, assocReq 2, assocReq 1, assocReq 2] =
+    [.reply, .reply, .reply, .dropNts, .reply, .dropNts] := by decide
+example : runLoopN true true (2048, []) [assocReq 1, assocReq 1, plainReq, assocReq 2, assocReq 1, assocReq 2] =
+    [.reply, .reply, .reply, .reply, .reply, .reply] := by decide
+example : runLoopN true false (2048, []) [junkCookie 9, assocReq 1, plainReq, assocReq 2] =
+    [.dropNts, .dropNts, .reply, .dropNts] := by decide
+example : runLoopN true true (2048, []) [junkCookie 9, assocReq 1, plainReq, assocReq 2] =
+    [.dropNts, .reply, .reply, .reply] := by decide
+
+/-- The structural fact, re-read from /repo on every run (`harness/extract/x_c09.go`): in
+    `runIPServer` and in `runSCIONServer` the structs filled by `ntp.DecodePacket`,
+    `nts.DecodePacket` / `nts.ProcessRequest` and the server cookie assigned from `Decrypt` are
+    declared (`var X T`, zero value) inside the body of the receive loop, before their use. -/
+theorem C09_pin_requestStateInLoop :
+    Gen.Server.ipServerRequestStateInLoop = true ∧ Gen.Server.scionServerRequestStateInLoop = true := by decide
 
 /-- Nothing shorter than 48 bytes (in particular the empty datagram) is answered. -/
 theorem C09_short_never_answered (b : List Nat) (ntsOk : Bool) (h : b.length < 48) :
